@@ -149,7 +149,7 @@ def front_half(E, cx, sde, y0, ts, bm, method, adaptive=False, options=None, nam
         fn = E.module(M_SDEINT).globals['sdeint']
     else:
         fn = E.module('torchsde._core.adjoint').globals['sdeint_adjoint']
-    kw = dict(bm=bm, method=method, dt=dt, adaptive=adaptive, rtol=Fraction(1, 1000), atol=Fraction(1, 1000), dt_min=Fraction(1, 10000),
+    kw = dict(bm=bm, method=method, dt=dt, adaptive=adaptive, rtol=Fraction(1, 1000), atol=Fraction(1, 2000), dt_min=Fraction(1, 10000),
               options=options, names=names, logqp=logqp)
     if entry != 'sdeint':
         kw['adjoint_params'] = ()
@@ -220,6 +220,13 @@ def job_forward_matrix(E, rep, tier):
             rep.add(tag + '/no-brownian-query-before-integration', 'frame', 'refuted', 'pyvc-exec')
         if out[0] == 'ok':
             sde2, y02, ts2, bm2, method2 = out[2]
+            sv = out[1]
+            given = {'dt': Fraction(1, 10), 'adaptive': adaptive, 'rtol': Fraction(1, 1000), 'atol': Fraction(1, 2000), 'dt_min': Fraction(1, 10000)}
+            wrong = {k: str(sv.fields.get(k)) for k, v in given.items() if sv.fields.get(k) != v}
+            if bm is not None and sv.fields.get('bm') is not bm:
+                wrong['bm'] = 'not the Brownian motion that was passed'
+            rep.add(tag + '/solver-constructed-with-the-given-dt-adaptive-rtol-atol-dt_min-bm', 'post', 'discharged' if not wrong else 'refuted', 'pyvc-exec',
+                    model=None if not wrong else wrong)
             if method is None:
                 ok = method2 == default_method(sde_type, noise)
                 rep.add(tag + '/default-method', 'post', 'discharged' if ok else 'refuted', 'pyvc-exec', model=None if ok else {'got': method2})
